@@ -60,18 +60,18 @@ PROPS["C01"] = {
     "assumptions": TABLE_ASSUME,
     "tiers": {
         "quick": [{"mode": "rc", "cases": 400, "max_size": 100}],
-        "thorough": [{"mode": "rc", "cases": 8000, "max_size": 100}],
+        "thorough": [{"mode": "rc", "cases": 4000, "max_size": 100}],
     },
 }
 
 WRITER_TIERS = {
     "quick": [{"mode": "rc", "cases": 400, "max_size": 100}],
-    "thorough": [{"mode": "rc", "cases": 12000, "max_size": 100}],
+    "thorough": [{"mode": "rc", "cases": 6000, "max_size": 100}],
 }
 
 C08_TIERS = {"quick": [{"mode": "rc", "cases": 400, "max_size": 100}],
              # hugekey: one fixed scenario with a key of 2^31+1 bytes (several GiB of memory for a few seconds)
-             "thorough": [{"mode": "rc", "cases": 12000, "max_size": 100}, {"mode": "hugekey", "workers": 1}]}
+             "thorough": [{"mode": "rc", "cases": 6000, "max_size": 100}, {"mode": "hugekey", "workers": 1}]}
 PROPS["C08"] = {
     "manifest": {
         "level_text": ("Generated histories of add calls (stateful, model-based): the model predicts accept/refuse for every call "
@@ -182,7 +182,7 @@ PROPS["C03"] = {
     "tiers": {
         "quick": [{"mode": "rc", "cases": 600, "max_size": 100},
                   {"mode": "enum", "kv": {"tables": 3}, "note": "all (kind, position, target) triples of 48 family tables"}],
-        "thorough": [{"mode": "rc", "cases": 20000, "max_size": 100},
+        "thorough": [{"mode": "rc", "cases": 10000, "max_size": 100},
                      {"mode": "enum", "kv": {"tables": 170}, "exhaustive": True,
                       "note": "all (kind, position, target) triples of the whole 2700-table family"}],
     },
@@ -210,7 +210,7 @@ PROPS["C04"] = {
     "assumptions": TABLE_ASSUME,
     "tiers": {
         "quick": [{"mode": "rc", "cases": 1500, "max_size": 100}],
-        "thorough": [{"mode": "rc", "cases": 20000, "max_size": 100}],
+        "thorough": [{"mode": "rc", "cases": 10000, "max_size": 100}],
     },
 }
 
@@ -233,7 +233,7 @@ PROPS["C05"] = {
     "assumptions": TABLE_ASSUME,
     "tiers": {
         "quick": [{"mode": "rc", "cases": 1500, "max_size": 100}],
-        "thorough": [{"mode": "rc", "cases": 15000, "max_size": 100}],
+        "thorough": [{"mode": "rc", "cases": 8000, "max_size": 100}],
     },
 }
 
@@ -314,9 +314,9 @@ PROPS["C15"] = {
                   {"mode": "fuzz", "target": "fuzz/fuzz_compress.cpp", "seeds": "bytes", "runs": 40000, "max_len": 8192, "workers": 8,
                    "note": "libFuzzer: bytes -> (algorithm, entry point, level, buffer), round-trip oracle inside the target"}],
         "thorough": [{"mode": "small", "kv": {"maxlen": 300}}, {"mode": "big", "workers": 5, "kv": {"sizes": 2}}, {"mode": "rc", "cases": 6000, "max_size": 100},
-                     {"mode": "fuzz", "target": "fuzz/fuzz_compress.cpp", "seeds": "bytes", "runs": 1000000, "max_len": 65536, "workers": 12,
+                     {"mode": "fuzz", "target": "fuzz/fuzz_compress.cpp", "seeds": "bytes", "runs": 300000, "max_len": 65536, "workers": 12,
                       "note": "libFuzzer, seeded corpus"},
-                     {"mode": "fuzz", "target": "fuzz/fuzz_compress.cpp", "runs": 1000000, "max_len": 65536, "workers": 4, "value_profile": 1,
+                     {"mode": "fuzz", "target": "fuzz/fuzz_compress.cpp", "runs": 300000, "max_len": 65536, "workers": 4, "value_profile": 1,
                       "note": "libFuzzer, empty corpus, value profile"}],
     },
 }
@@ -340,7 +340,7 @@ PROPS["C06"] = {
     "assumptions": TABLE_ASSUME,
     "tiers": {
         "quick": [{"mode": "rc", "cases": 1000, "max_size": 100}],
-        "thorough": [{"mode": "rc", "cases": 15000, "max_size": 100}],
+        "thorough": [{"mode": "rc", "cases": 8000, "max_size": 100}],
     },
 }
 
@@ -371,10 +371,10 @@ PROPS["C19"] = {
                   {"mode": "fuzz", "target": "fuzz/fuzz_open.cpp", "seeds": "c19", "runs": 60000, "max_len": 2048, "workers": 8,
                    "note": "libFuzzer, structure-aware input (base selector + field mutations | raw file), seeded corpus"}],
         "thorough": [{"mode": "enum", "kv": {"full": 1}, "exhaustive": True, "note": "all 12 base files x 5 fields x verify on/off"},
-                     {"mode": "rc", "cases": 40000, "max_size": 100},
-                     {"mode": "fuzz", "target": "fuzz/fuzz_open.cpp", "seeds": "c19", "runs": 1500000, "max_len": 4096, "workers": 12,
+                     {"mode": "rc", "cases": 15000, "max_size": 100},
+                     {"mode": "fuzz", "target": "fuzz/fuzz_open.cpp", "seeds": "c19", "runs": 400000, "max_len": 4096, "workers": 12,
                       "note": "libFuzzer, seeded corpus"},
-                     {"mode": "fuzz", "target": "fuzz/fuzz_open.cpp", "runs": 1500000, "max_len": 4096, "workers": 4, "value_profile": 1,
+                     {"mode": "fuzz", "target": "fuzz/fuzz_open.cpp", "runs": 400000, "max_len": 4096, "workers": 4, "value_profile": 1,
                       "note": "libFuzzer, empty corpus, value profile"}],
     },
 }
@@ -457,10 +457,10 @@ PROPS["C11"] = {
         "quick": [{"mode": "samples", "workers": 1}, {"mode": "rc", "cases": 200, "max_size": 100},
                   {"mode": "fuzz", "target": "fuzz/fuzz_encoding.cpp", "seeds": "bytes", "runs": 4000, "max_len": 600, "workers": 8,
                    "note": "libFuzzer: the input bytes are the encoding choices of the independent encoder"}],
-        "thorough": [{"mode": "samples", "workers": 1}, {"mode": "rc", "cases": 6000, "max_size": 100},
-                     {"mode": "fuzz", "target": "fuzz/fuzz_encoding.cpp", "seeds": "bytes", "runs": 400000, "max_len": 2048, "workers": 12,
+        "thorough": [{"mode": "samples", "workers": 1}, {"mode": "rc", "cases": 3000, "max_size": 100},
+                     {"mode": "fuzz", "target": "fuzz/fuzz_encoding.cpp", "seeds": "bytes", "runs": 60000, "max_len": 2048, "workers": 12,
                       "note": "libFuzzer, seeded corpus"},
-                     {"mode": "fuzz", "target": "fuzz/fuzz_encoding.cpp", "runs": 400000, "max_len": 2048, "workers": 4, "value_profile": 1,
+                     {"mode": "fuzz", "target": "fuzz/fuzz_encoding.cpp", "runs": 60000, "max_len": 2048, "workers": 4, "value_profile": 1,
                       "note": "libFuzzer, empty corpus, value profile"},
                      {"mode": "big4g", "workers": 1, "kv": {"shapes": 1},
                       "note": "block_builder -> block_init/block_iter round trip of a block above 4 GiB (64-bit restart array), shape drawn from the seed"}],
@@ -491,7 +491,7 @@ PROPS["C18"] = {
     "assumptions": TABLE_ASSUME,
     "tiers": {
         "quick": [{"mode": "rc", "cases": 600, "max_size": 100}],
-        "thorough": [{"mode": "rc", "cases": 15000, "max_size": 100}],
+        "thorough": [{"mode": "rc", "cases": 5000, "max_size": 100}],
     },
 }
 
@@ -517,7 +517,7 @@ PROPS["C07"] = {
     "assumptions": TABLE_ASSUME,
     "tiers": {
         "quick": [{"mode": "rc", "cases": 1500, "max_size": 100}],
-        "thorough": [{"mode": "rc", "cases": 30000, "max_size": 100}],
+        "thorough": [{"mode": "rc", "cases": 15000, "max_size": 100}],
     },
 }
 
@@ -549,8 +549,8 @@ PROPS["C13"] = {
     "tiers": {
         "quick": [{"mode": "dfs", "kv": {"bound": 1, "cap": 4000, "members": 2}, "note": "all schedules with <= 1 preemption for 32 family members"},
                   {"mode": "rc", "cases": 400, "max_size": 100}],
-        "thorough": [{"mode": "dfs", "kv": {"bound": 2, "cap": 150000, "members": 10}, "note": "all schedules with <= 2 preemptions for the whole family"},
-                     {"mode": "rc", "cases": 12000, "max_size": 100}],
+        "thorough": [{"mode": "dfs", "kv": {"bound": 2, "cap": 60000, "members": 10}, "note": "all schedules with <= 2 preemptions for the whole family"},
+                     {"mode": "rc", "cases": 6000, "max_size": 100}],
     },
 }
 
